@@ -14,7 +14,6 @@
 
 namespace vx {
 
-AllocGuard g_alloc;
 
 // --------------------------------------------------------------------------- options
 struct Options {
@@ -659,23 +658,7 @@ static int replay_main() {
 
 } // namespace vx
 
-// --------------------------------------------------------------------------- allocation interposition (C18): operator new/delete are
-// replaced here; malloc & co. are redirected by -Wl,--wrap in non-sanitizer builds.
-void* operator new(size_t n) { if (vx::g_alloc.in_lib) ++vx::g_alloc.hits; void* p = malloc(n ? n : 1); if (!p) abort(); return p; }
-void* operator new[](size_t n) { if (vx::g_alloc.in_lib) ++vx::g_alloc.hits; void* p = malloc(n ? n : 1); if (!p) abort(); return p; }
-void operator delete(void* p) noexcept { if (vx::g_alloc.in_lib) ++vx::g_alloc.hits; free(p); }
-void operator delete[](void* p) noexcept { if (vx::g_alloc.in_lib) ++vx::g_alloc.hits; free(p); }
-void operator delete(void* p, size_t) noexcept { if (vx::g_alloc.in_lib) ++vx::g_alloc.hits; free(p); }
-void operator delete[](void* p, size_t) noexcept { if (vx::g_alloc.in_lib) ++vx::g_alloc.hits; free(p); }
-#ifdef VX_WRAP_MALLOC
-extern "C" {
-void* __real_malloc(size_t); void* __real_calloc(size_t, size_t); void* __real_realloc(void*, size_t); void __real_free(void*);
-void* __wrap_malloc(size_t n) { if (vx::g_alloc.in_lib) ++vx::g_alloc.hits; return __real_malloc(n); }
-void* __wrap_calloc(size_t a, size_t b) { if (vx::g_alloc.in_lib) ++vx::g_alloc.hits; return __real_calloc(a, b); }
-void* __wrap_realloc(void* p, size_t n) { if (vx::g_alloc.in_lib) ++vx::g_alloc.hits; return __real_realloc(p, n); }
-void __wrap_free(void* p) { if (vx::g_alloc.in_lib && p) ++vx::g_alloc.hits; __real_free(p); }
-}
-#endif
+#include "vx_alloc.hpp"
 
 int main(int argc, char** argv) {
 	using namespace vx;
